@@ -54,6 +54,22 @@ CHECKS = {
    SPEC + "Reads object memory through raw pointers from zero-initialised storage; only distinctive windows (>=6 distinct bytes) are searched; the search must find at least one resident secret before zeroize, otherwise the case is an engine error, not a pass.", "DESIGN.md §3 C17"),
 }
 
+
+CHECKS.update({
+ "C08": C("property-based testing over schedule scripts: scripted fork-join (hook 2 and the C TBB seam) + real rayon pools, serial twin and spec as oracle",
+   "Exploration over (mode, forced SIMD level, prefix, input, suffix) x schedule, where the harness owns the order of the two halves of every recursive split: left-first / right-first / truly concurrent on two threads as a pure function of (seed, split-tree path), through a Join implementation compiled into the crate (hook 2) and through the C library's blake3_compress_subtree_wide_join_tbb seam implemented by the harness; plus update_rayon / update_mmap_rayon in pools of 1..16 threads. The multithreaded hasher must be observationally equal to a serial twin (count, hash, XOF, again after a common suffix) and to the spec.",
+   SPEC + DBG + "Schedules are sampled, not enumerated: the harness controls the ORDER of halves, not instruction interleavings; data-race freedom rests on the borrow checker for safe Rust and on C07 for kernels; real oneTBB is replaced by a pthread seam.", "DESIGN.md §3 C08"),
+ "C12": C("property-based testing of the real b3sum binary over generated files, flag combinations and checkfiles (spec model + verdict-by-construction oracle)",
+   "Exploration: the binary compiled from /repo/b3sum/src/main.rs is run on generated files with hostile names and generated combinations of --keyed/--derive-key/--length/--seek/--no-mmap/--num-threads/--raw/--no-names/--tag; stdout must be byte-for-byte the documented line format around spec S[seek..seek+length]; its output is fed back to the real --check. Checkfiles are assembled from entries whose verdict is known by construction (good/stale/missing/directory/malformed, LF/CRLF, plain/tagged): exit status 0 iff all good, OK/FAILED lines in order, diagnostics and the WARNING count.",
+   SPEC + "b3sum is built through engine/b3shim with a 6-line stand-in for the `wild` crate (not in the offline cache; on Unix wild::args_os is std::env::args_os) and without clap's wrap_help (help text only). Wording of diagnostics is not asserted.", "DESIGN.md §3 C12"),
+ "C13": C("property-based round-trip and certificate checking on b3sum's own printer/parser functions + exhaustive single-character mutants",
+   "Exploration in-process on b3sum's filepath_to_string and parse_check_line (main.rs is include!-d unchanged): 200k paths from a hostile alphabet in both forms and three terminators must round-trip exactly when representable and be rejected otherwise; arbitrary text, near-valid lines and every single-character replace/insert/delete mutant of valid base lines must never panic, and any accepted line is verified as a certificate against the line text (so lines with several conceivable decompositions cannot raise false alarms); constructed members of the always-error classes must be rejected.",
+   "Trusts the model of the documented escaping (\\\\, \\n, \\r) in the harness. Windows path normalisation is not executable here.", "DESIGN.md §3 C13"),
+ "C18": C("property-based stress testing: generated per-thread programs on disjoint instances in fresh processes, spec oracle per thread",
+   "Exploration: 2-32 threads, each with its own generated program over its own Rust and C instances (one-shots, update histories incl. rayon/mmap, XOF readers, C hashers of both builds), released together by a barrier in a fresh child process so that CPU-feature detection itself races, repeated 12-40 times; every thread's outputs must equal the spec (= what it yields alone) and the process must exit cleanly.",
+   SPEC + "Detection of a race is probabilistic: interleavings are not controlled or enumerated (see DESIGN.md §7); a bug needing one specific interleaving can be missed.", "DESIGN.md §3 C18"),
+})
+
 NOT_YET = {}
 
 def main():
@@ -101,7 +117,7 @@ def main():
         json.dump(man, f, indent=1)
     print("MANIFEST.json written: %d checks, %d not_applicable" % (len(checks), len(na)))
 
-HOOK_COMMITS = ["2e5a821", "051af93"]
+HOOK_COMMITS = ["2e5a821", "051af93", "2bf2226"]
 
 if __name__ == "__main__":
     main()
